@@ -6,7 +6,6 @@ import (
 	"github.com/mlange-42/ark/ecs"
 )
 
-type Pos struct{ X, Y float64 }
 type RelA struct{ ecs.RelationMarker }
 type RelB struct{ ecs.RelationMarker }
 type Tag struct{}
